@@ -153,12 +153,12 @@ package hessian
 //@   let isRef  = @tr == G.ref(old(@tr), int64(ti.v(last(@tr))))
 //@   let base   = ite(length < len(old(e.clsDefList)), old(@tr), G.clsDef(old(@tr), clsName, gtyp))
 //@   loop 1 invariant [C15,C13:flags-loop] 0 <= i && i <= R.numField(gvv) && (@W ==> old(@W)) && (@E ==> old(@E))
-//@   loop 1 invariant [C02,C05:object-fields] @tr == G.fieldVals(G.instTag(base, length), gvv, i)
+//@   loop 1 invariant [C02,C05:object-fields] @tr == G.fieldVals(G.instTag(base, length), gvv, i) || @tr == G.fieldVals(G.instTagLong(base, length), gvv, i)
 //@   loop 1 invariant [C04:inv-ordinals] mapsize(e.refMap) + @clashes == @opens
 //@   ensures [C15:W] (@W && !old(@W)) ==> err != nil
 //@   ensures [C13:E] (@E && !old(@E)) ==> err != nil
 //@   ensures [C02,C10:object-date]       err == nil && !isRef && isDate ==> @tr == snoc(old(@tr), TDate(i.time(R.iface(gvv))))
-//@   proves [C02,C05:object-production] err == nil && !isRef && !isDate ==> @tr == G.fieldVals(G.instTag(base, length), gvv, R.numField(gvv))
+//@   proves [C02,C05:object-production] err == nil && !isRef && !isDate ==> @tr == G.fieldVals(G.instTag(base, length), gvv, R.numField(gvv)) || @tr == G.fieldVals(G.instTagLong(base, length), gvv, R.numField(gvv))
 //@   proves [C02,C05:object-class-name] err == nil && !isRef && !isDate && length < len(old(e.clsDefList)) ==> old(e.clsDefList[length].FullClassName) == clsName
 //@   ensures [C04:inv-ordinals]          err == nil ==> mapsize(e.refMap) + @clashes == @opens
 
@@ -175,14 +175,15 @@ package hessian
 //@   let typed  = old(maphas(e.nameMap, tn)) && R.rootElemName(tn) != "interface {}"
 //@   let cnt    = R.len(gvv)
 //@   let hdr    = ite(typed, G.listHdrTyped(old(@tr), old(mapget(e.nameMap, tn)), cnt), G.listHdrUntyped(old(@tr), cnt))
+//@   let hdrL   = ite(typed, G.listHdrTypedLong(old(@tr), old(mapget(e.nameMap, tn)), cnt), G.listHdrUntyped(old(@tr), cnt))
 //@   let isRef  = @tr == G.ref(old(@tr), int64(ti.v(last(@tr))))
 //@   loop 1 invariant [C15,C13:flags-loop] 0 <= i && i <= cnt && (@W ==> old(@W)) && (@E ==> old(@E))
-//@   loop 1 invariant [C02,C01,C16:list-elems] @tr == G.elems(hdr, gvv, i)
+//@   loop 1 invariant [C02,C01,C16:list-elems] @tr == G.elems(hdr, gvv, i) || @tr == G.elems(hdrL, gvv, i)
 //@   loop 1 invariant [C04:inv-ordinals] mapsize(e.refMap) + @clashes == @opens
 //@   ensures [C15:W] (@W && !old(@W)) ==> err != nil
 //@   ensures [C13:E] (@E && !old(@E)) ==> err != nil
 //@   ensures [C02,C09:list-bytes]            err == nil && istype(data, "[]byte") ==> @tr == snoc(old(@tr), TBin(i.bytes(data)))
-//@   ensures [C02,C01,C13,C16:list-production] err == nil && !istype(data, "[]byte") && !isRef ==> @tr == G.elems(hdr, gvv, cnt)
+//@   ensures [C02,C01,C13,C16:list-production] err == nil && !istype(data, "[]byte") && !isRef ==> @tr == G.elems(hdr, gvv, cnt) || @tr == G.elems(hdrL, gvv, cnt)
 //@   ensures [C04:inv-ordinals]              err == nil ==> mapsize(e.refMap) + @clashes == @opens
 
 //@ func (*Encoder).writeMap
@@ -244,7 +245,9 @@ package hessian
 // @startcls / @startrefs: sizes of the class-definition and reference tables when the value's encoding began.
 
 //@ func NewEncoder
+//@   assigns @opens, @clashes, @tr
 //@   ensures [C11,C17:new-encoder] fresh(result) && result.nameMap != nil && (np != nil ==> result.nameMap == np) && (np == nil ==> fresh(result.nameMap))
+//@   ensures [C11,C12:new-encoder-keeps-map] mapsame(np)
 //@   ensures [C11:new-encoder-reset] w != nil ==> result.writer == w && len(result.clsDefList) == 0 && mapsize(result.refMap) == 0 && result.refMap != nil
 
 //@ func (*Encoder).WriteObject
@@ -284,6 +287,7 @@ package hessian
 
 //@ func (*goHessian).WriteTo
 //@   requires gh.encoder.nameMap != nil
+//@   assigns @out, @W, @E, @nwrites, @tr, @opens, @clashes, @lastwriter, @startcls, @startrefs, gh.encoder.writer, gh.encoder.clsDefList, gh.encoder.refMap, gh.encoder.failed, mapof(gh.encoder.refMap), mapof(gh.encoder.nameMap)
 //@   ensures [C15:W] (@W && !old(@W)) ==> err != nil
 //@   ensures [C13:E] (@E && !old(@E)) ==> err != nil
 //@   ensures [C11:one-shot-from-reset-state] @startcls == 0 && @startrefs == 0
@@ -291,6 +295,7 @@ package hessian
 
 //@ func (*goHessian).ToBytes
 //@   requires gh.encoder.nameMap != nil
+//@   assigns @out, @W, @E, @nwrites, @tr, @opens, @clashes, @lastwriter, @startcls, @startrefs, gh.encoder.writer, gh.encoder.clsDefList, gh.encoder.refMap, gh.encoder.failed, mapof(gh.encoder.refMap), mapof(gh.encoder.nameMap)
 //@   ensures [C13:E] (@E && !old(@E)) ==> err != nil
 //@   ensures [C11:one-shot-from-reset-state] @startcls == 0 && @startrefs == 0
 //@   ensures [C11,C02:one-shot-one-value]    err == nil ==> @tr == snoc(emp, TVal(object))
@@ -298,6 +303,7 @@ package hessian
 //@ func (*goHessian).Write
 //@   requires gh.encoder.nameMap != nil && gh.encoder.refMap != nil
 //@   requires mapsize(gh.encoder.refMap) + @clashes == @opens
+//@   assigns @out, @W, @E, @nwrites, @tr, @opens, @clashes, @lastwriter, @startcls, @startrefs, gh.encoder.clsDefList, gh.encoder.failed, mapof(gh.encoder.refMap), mapof(gh.encoder.nameMap)
 //@   ensures [C15:W] (@W && !old(@W)) ==> err != nil
 //@   ensures [C13:E] (@E && !old(@E)) ==> err != nil
 //@   ensures [C06,C02:one-value] err == nil ==> @tr == snoc(old(@tr), TVal(object))
